@@ -39,7 +39,14 @@ ThmCodec ==
 (* the results for valid UTF-8 in a UTF-8 column never split a character     *)
 ThmUtf8Kept ==
   (utf8 /\ Valid(d)) => Valid(TruncMin(d, l, utf8).v) /\ Valid(TruncMax(d, l, utf8).v)
-(* vacuity guards: both the cut and the fall-back branches are reached (checked by *)
-(* the companion properties below being violated when negated is not possible in   *)
-(* an invariant; instead they are counted by MC_Truncate's coverage of Kept / Cut)  *)
+(* vacuity guards: both outcomes of the rule (cut / kept as is) occur for   *)
+(* lower and upper bounds in each universe                                  *)
+ASSUME \E b \in SeqsUpTo(ByteAlphabet, MaxBytes), n \in 1..MaxBytes :
+          TruncMin(b, n, FALSE).cut /\ TruncMax(b, n, FALSE).cut
+ASSUME \E b \in SeqsUpTo(ByteAlphabet, MaxBytes), n \in 1..MaxBytes :
+          Len(b) > n /\ ~TruncMax(b, n, FALSE).cut
+ASSUME \E cps \in SeqsUpTo(CodePoints, 2), n \in 1..8 :
+          TruncMin(EncodeAll(cps), n, TRUE).cut /\ TruncMax(EncodeAll(cps), n, TRUE).cut
+ASSUME \E cps \in SeqsUpTo(CodePoints, 2), n \in 1..8 :
+          Len(EncodeAll(cps)) > n /\ ~TruncMax(EncodeAll(cps), n, TRUE).cut
 =============================================================================
